@@ -94,7 +94,7 @@ func (g *gen) funBodyCase(params []int64, stmts []*N, suffix, bucket string, den
 		}
 		return "tree " + n.coq()
 	}
-	g.env.Add(fmt.Sprintf("CFun (%s) (%s) %s %s %s %s", want.coq(), wantDecl.coq(), optTree(pf), optTree(decl), Cbool(c1), Cbool(c2)),
+	g.add(fmt.Sprintf("CFun (%s) (%s) %s %s %s %s", want.coq(), wantDecl.coq(), optTree(pf), optTree(decl), Cbool(c1), Cbool(c2)),
 		fmt.Sprintf("function body params %q body %q -> ParseFunction: %s ; as declaration: %s ; typeof new Function: %s ; typeof Function: %s ; generating tree %s",
 			ptext, body, show(pf, want, pfErr), show(decl, wantDecl, declErr), s1, s2, want.coq()), bucket, true)
 }
@@ -239,7 +239,7 @@ func (g *gen) regexStatementEnds() {
 								shown = "the generating tree"
 							}
 						}
-						g.env.Add(fmt.Sprintf("CProg (%s) %s", want.coq(), obs),
+						g.add(fmt.Sprintf("CProg (%s) %s", want.coq(), obs),
 							fmt.Sprintf("program %q -> %s ; generating tree %s", src, shown, want.coq()), "regexp-statement-end", true)
 					}
 				}
